@@ -2,6 +2,7 @@ package props
 
 import (
 	"fmt"
+	"go/constant"
 	"go/token"
 	"strings"
 
@@ -74,7 +75,11 @@ func (c *c17ctx) sanitized(v ssa.Value, depth int) (bool, string) {
 		}
 		return false, "passes through " + name + " at " + c.p.Pos(x.Pos()) + ", which is not an identity on cleaned POSIX paths"
 	case *ssa.Phi:
+		live := liveBlocks(x.Parent())
 		for k, e := range x.Edges {
+			if !live[x.Block().Preds[k]] {
+				continue // behind a constant-false test (`if filepath.Separator != '/'` on this platform)
+			}
 			if ok, why := c.sanitized(e, depth+1); !ok {
 				// the value arrives uncleaned, but over the edge on which it is known to contain no "/.": every segment of a
 				// rooted path follows a slash, so it has no "." or ".." segment (rootedness of e is C17-R2's obligation)
@@ -98,6 +103,50 @@ func (c *c17ctx) sanitized(v ssa.Value, depth int) (bool, string) {
 		return false, "string arithmetic after cleaning (" + sx.ValPath(v) + ")"
 	}
 	return false, "derives from " + sx.ValPath(v)
+}
+
+// isBaseItself: v is the base parameter (parameter 0) or filepath.Clean of it.
+func isBaseItself(v ssa.Value, fn *ssa.Function) bool {
+	if fromParam(v, fn, 0) {
+		if _, isCall := v.(*ssa.Call); !isCall {
+			return true
+		}
+	}
+	if call, ok := v.(*ssa.Call); ok && sx.CalleeName(call) == "path/filepath.Clean" && fromParam(call.Call.Args[0], fn, 0) {
+		return true
+	}
+	return false
+}
+
+// liveBlocks: the blocks of fn reachable from its entry when a test of a boolean constant takes only its own branch.
+func liveBlocks(fn *ssa.Function) map[*ssa.BasicBlock]bool {
+	live := map[*ssa.BasicBlock]bool{}
+	var walk func(b *ssa.BasicBlock)
+	walk = func(b *ssa.BasicBlock) {
+		if live[b] {
+			return
+		}
+		live[b] = true
+		if len(b.Instrs) > 0 {
+			if iff, ok := b.Instrs[len(b.Instrs)-1].(*ssa.If); ok {
+				if c, ok := iff.Cond.(*ssa.Const); ok && c.Value != nil && c.Value.Kind() == constant.Bool {
+					if constant.BoolVal(c.Value) {
+						walk(b.Succs[0])
+					} else {
+						walk(b.Succs[1])
+					}
+					return
+				}
+			}
+		}
+		for _, s := range b.Succs {
+			walk(s)
+		}
+	}
+	if len(fn.Blocks) > 0 {
+		walk(fn.Blocks[0])
+	}
+	return live
 }
 
 // noDotSegmentEdge: pred ends in `if strings.Contains(v, "/.")` and succ is its false successor only.
@@ -309,11 +358,27 @@ func runC17(p *core.Prog, r *core.Report) {
 		for _, lf := range leaves(ret.Results[0]) {
 			if call, ok := lf.(*ssa.Call); ok && sx.CalleeName(call) == "path/filepath.Join" {
 				join = call
-			} else if call, ok := lf.(*ssa.Call); ok && sx.CalleeName(call) == "path/filepath.Clean" && fromParam(call.Call.Args[0], fn, 0) {
-				// the cleaned base itself (a belt-and-braces fallback): "the base itself" is within the property
-				r.OK("C17-R1", c+": fallback result is the base itself", p.Pos(ret.Pos()), "filepath.Clean(base)")
-			} else if fromParam(lf, fn, 0) {
-				r.OK("C17-R1", c+": fallback result is the base itself", p.Pos(ret.Pos()), "the base parameter")
+			} else if isBaseItself(lf, fn) {
+				// the base itself as a belt-and-braces fallback: inside the base, but the property also says that a dot-free
+				// path resolves to the plain join — so the fallback must be decided by a containment test that is right for
+				// every spelling of the base: filepath.Rel(base, joined) (Rel cleans both sides)
+				relOK := false
+				sx.Instrs(fn, func(in ssa.Instruction) {
+					rc, ok := in.(*ssa.Call)
+					if !ok || sx.CalleeName(rc) != "path/filepath.Rel" || len(rc.Call.Args) != 2 {
+						return
+					}
+					if !isBaseItself(sx.Unspill(rc.Call.Args[0]), fn) {
+						return
+					}
+					if jc, ok := sx.Unspill(rc.Call.Args[1]).(*ssa.Call); !ok || sx.CalleeName(jc) != "path/filepath.Join" {
+						return
+					}
+					if sx.MustPass(fn, nil, ret, sx.Cut{Instrs: map[ssa.Instruction]bool{in: true}}) {
+						relOK = true
+					}
+				})
+				r.Check(relOK, "C17-R1", c+": fallback to the base itself is decided by filepath.Rel(base, joined)", p.Pos(ret.Pos()), "the fallback return lies behind filepath.Rel(base, joined)", "the base is returned instead of the joined path on a path that is not decided by filepath.Rel(base, joined): a textual comparison (prefix of the base as the caller spelled it) is wrong for bases that are not in clean form — ordinary dot-free paths then resolve to the bare base")
 			} else {
 				r.Fail("C17-R1", c+": result is a Join", p.Pos(ret.Pos()), "returned value "+sx.ValPath(lf)+" is not the result of filepath.Join(base, cleaned)")
 			}
